@@ -44,7 +44,25 @@ def run_any(spec):
         return scenario.run(spec)
     from . import frontends
 
-    return frontends.run_legacy(spec) if fe == 'legacy' else frontends.run_procpool(spec)
+    inj = None
+    ycfg = spec.get('yield')
+    if ycfg:
+        # line-level yield injection / one pause window for the other front-ends (legacy: s3transfer/__init__.py; process pool:
+        # processpool.py)
+        from . import yieldinj
+
+        w = ycfg.get('window')
+        wins = [{'file': w['file'], 'line': w['lineno'], 'nth': w.get('nth', 0), 'action': 'pause', 'name': w.get('name'),
+                 'wait': w.get('wait', 0.2)}] if w else ()
+        inj = yieldinj.Injector(p=ycfg.get('p', 0.0), seed=spec.get('seed', 0), windows=wins,
+                                files=ycfg.get('files') or (['__init__.py'] if fe == 'legacy' else ['processpool.py'])).install()
+    try:
+        obs = frontends.run_legacy(spec) if fe == 'legacy' else frontends.run_procpool(spec)
+    finally:
+        if inj is not None:
+            inj.uninstall()
+    obs.injector = inj
+    return obs
 
 
 def run_with(spec, evaluate, liveness=False):
